@@ -25,3 +25,9 @@ try:
 finally:
     subprocess.run(["git", "-C", "/repo", "reset", "-q", "--hard", "HEAD"])
     subprocess.run(["git", "-C", "/repo", "checkout", "--", "."])
+    # files the patch CREATED are untracked and survive the checkout: remove exactly those
+    import re
+    for m in re.finditer(r"^diff --git a/(\S+) b/\S+\nnew file mode", open(patch).read(), re.M):
+        f = os.path.join("/repo", m.group(1))
+        if os.path.exists(f):
+            os.remove(f)
